@@ -36,6 +36,8 @@ func universe() []pongo2.Context {
 	a["i8s"] = []int8{1, 2}
 	a["strs"] = []string{"b", "a"}
 	a["tm"] = time.Date(2021, 2, 3, 4, 5, 6, 0, time.UTC)
+	a["frac"] = 0.5 // numbers strictly between -1 and 1: nonzero, but zero as integers
+	a["nfrac"] = float32(-0.25)
 	a["html"] = "<p class=\"c\">one <b>two</b> &amp; <br/> three</p><!-- c --> four"
 	a["selfname"] = "/lazyself" // names of templates that include each other by computed name
 	a["laname"] = "/la"
@@ -54,6 +56,8 @@ func universe() []pongo2.Context {
 	b["x"] = "\xff\xfe<\x00\x01"
 	// markup with bytes that are not UTF-8 in every position a tag scanner distinguishes: text, opening tag, closing tag, entity, unterminated
 	b["html"] = "<b\xff>t\xfe</\xffb> <i>x</i\x80> </\xc3> &\xff; <\xe4\xbd> </b\xf0\x9f <"
+	b["frac"] = math.SmallestNonzeroFloat64
+	b["nfrac"] = "0.5"
 	b["selfname"] = "/la"
 	b["laname"] = "/lazyself"
 	b["l"] = [3]float64{math.NaN(), math.Inf(1), math.Inf(-1)}
